@@ -261,6 +261,50 @@ def check(run, replay=None):
                 model, margs, shape = link_law(wn, ln, link, q, hs, he, st, setting)
                 tol = "1 / 500000" if st == 0 else "1 / 400000"
                 add("Rabs (%s %s) <= %s" % (model, margs, tol), dict(desc, shape=shape), abs(q) > 1e-6 or st == 0)
+    # (3) a pump curve edited after the model has been simulated once: the next run must lie on the CURRENT curve (coefficients from the
+    #     model's own 1-/2-point formulas, not from the implementation's cached ones) ----------------------------------------------------
+    for rep in range(12 if thorough else 4):
+        wn = wntr.network.WaterNetworkModel()
+        wn.add_reservoir("R", base_head=round(rng.uniform(5, 30), 1))
+        wn.add_junction("J1", base_demand=round(rng.uniform(0.002, 0.01), 4), elevation=round(rng.uniform(0, 10), 1))
+        wn.add_junction("J2", base_demand=round(rng.uniform(0.002, 0.01), 4), elevation=round(rng.uniform(0, 10), 1))
+        wn.add_pipe("P1", "J1", "J2", length=round(rng.uniform(50, 800), 1), diameter=rng.choice([0.15, 0.25, 0.3]), roughness=rng.choice([90.0, 120.0]))
+
+        def pts():
+            if rng.random() < 0.5:
+                return [(round(rng.uniform(0.02, 0.08), 3), round(rng.uniform(20, 60), 1))]
+            return [(0.0, round(rng.uniform(40, 70), 1)), (round(rng.uniform(0.08, 0.2), 3), round(rng.uniform(5, 25), 1))]
+
+        def law(pp):
+            if len(pp) == 1:
+                return "(let '(A, B, C) := coeffs_1pt %s %s in head_pump_row A B C)" % (R(pp[0][0]), R(pp[0][1]))
+            return "(let '(A, B, C) := coeffs_2pt %s %s %s %s in head_pump_row A B C)" % (R(pp[0][0]), R(pp[0][1]), R(pp[1][0]), R(pp[1][1]))
+        p_old, p_new = pts(), pts()
+        wn.add_curve("hc", "HEAD", p_old)
+        wn.add_pump("PU", "R", "J1", "HEAD", "hc")
+        wn.options.time.duration = 2 * 3600
+        how = rng.choice(["run_then_edit", "run_then_edit", "coefficients_then_edit", "edit_before_any_use"])
+        stages = []
+        if how == "run_then_edit":
+            r1, e1, w1, _ = simrun.run(wntr, wn)
+            if simrun.converged(r1, e1, w1):
+                stages.append((r1, p_old, "first run"))
+            wn.reset_initial_values()
+        elif how == "coefficients_then_edit":
+            wn.get_link("PU").get_head_curve_coefficients()
+        wn.get_curve("hc").points = list(p_new)
+        r2, e2, w2, _ = simrun.run(wntr, wn)
+        if simrun.converged(r2, e2, w2):
+            stages.append((r2, p_new, "run after the curve was edited (%s)" % how))
+        run.count("curve_edit:" + how)
+        for rr, pp, what in stages:
+            for t in rr.node["head"].index:
+                q, hs, he = float(rr.link["flowrate"].loc[t, "PU"]), float(rr.node["head"].loc[t, "R"]), float(rr.node["head"].loc[t, "J1"])
+                if int(rr.link["status"].loc[t, "PU"]) == 0:
+                    continue
+                add("Rabs (%s %s %s %s) <= 1 / 400000" % (law(pp), R(q), R(hs), R(he)),
+                    {"check": "reported", "shape": "head_pump_current_curve", "stage": what, "curve_points": pp, "previous_points": p_old,
+                     "time": int(t), "q": q, "hs": hs, "he": he}, True)
     res_, errors = common.run_prop_cases("C02", HEADER, TACTIC, cases, shard=40, case_timeout=40)
     for e in errors:
         run.tie_broken("correspondence case file failed to compile", e)
